@@ -151,7 +151,7 @@ def main():
         rng = random.Random(a.seed)
         corpus = []
         cdir = os.path.join(vlib.VERIF, "corpus", prop + ".txt")
-        if os.path.exists(cdir):
+        if os.path.exists(cdir) and not os.environ.get("VERIF_NO_CORPUS"):      # (the seed-robustness audit measures the generators alone)
             corpus = [l.strip() for l in open(cdir) if l.strip() and not l.startswith("#")]
         gen_cases = list(mod.gen(rng, a.tier))
         corpus = [c for c in dict.fromkeys(corpus) if c not in set(gen_cases)]
